@@ -1,7 +1,7 @@
 CONSTANTS
   MaxLinks = 2
-  OptStride = 12
-  LinkStride = 512
+  OptStride = 16
+  LinkStride = 768
   PermMax = 4
 SPECIFICATION Spec
 INVARIANTS Terminates NothingRejected StackBounded EndBag EndValid EndAllOuts EndExpected EndLoop EndParentChild EndSiblings EndOnce EndExactSet PredicateTight ExpectedAdmissible ListingLemma
